@@ -55,6 +55,21 @@ def corpus(tier: str, seed: int):
     return own + acc
 
 
+def chunked(mods, own_chunks=8):
+    """split the (large) hand-written corpus modules into function chunks so that they are explored in parallel:
+    (name, src, kind) -> (name, src, kind, chunk, nchunks)"""
+    out = []
+    for m in mods:
+        n = own_chunks if m[0].startswith("corpus/") else 1
+        for c in range(n):
+            out.append((m[0], m[1], m[2], c, n))
+    return out
+
+
+def in_chunk(m, i):
+    return len(m) < 5 or i % m[4] == m[3]
+
+
 _compile_cache = {}
 
 
@@ -136,7 +151,9 @@ def conforms(t: dict, d, depth: int, width: int, defs=None):
         alts = []
         for c in t["constructors"]:
             idx = c["index"]
-            for dec in c.get("decorators", []):
+            # a constructor's own @tag wins over a @tag on the type (record sugar puts it there): same rule as the
+            # serialiser's get_constr_index_variant
+            for dec in list(t.get("decorators", [])) + list(c.get("decorators", [])):
                 m = re.match(r"tag\((\d+)\)", str(dec))
                 if m:
                     idx = int(m.group(1))
@@ -200,8 +217,10 @@ def passes_natively(fn: dict) -> bool:
 # ------------------------------------------------------------------------------------------------ running
 
 
-def run_program(prog: dict, args, assume, sem="E", max_steps=20000, max_paths=400, timeout_ms=10000):
-    m = Machine(semantics=sem, max_steps=max_steps, max_paths=max_paths, solver_timeout_ms=timeout_ms)
+def run_program(prog: dict, args, assume, sem="E", max_steps=20000, max_paths=400, timeout_ms=10000, deadline_s=None):
+    if deadline_s is None:
+        deadline_s = 90 if os.environ.get("VERIF_TIER", "quick") == "quick" else 240
+    m = Machine(semantics=sem, max_steps=max_steps, max_paths=max_paths, solver_timeout_ms=timeout_ms, deadline_s=deadline_s)
     t = time.time()
     paths = m.run(parse_term(prog["term"]), args, assume)
     return paths, m.stats, time.time() - t
